@@ -10,7 +10,7 @@ for d in seeded/${pat}*/; do
   sd=$(basename $d); id=${sd%%-*}
   [ -f $d/patch.diff ] || continue
   git -C $wt checkout -- . 2>/dev/null
-  if ! git -C $wt apply $d/patch.diff 2>/dev/null; then echo "| $sd | patch no longer applies (the repository was repaired at that site) |" >> $out; continue; fi
+  if ! git -C $wt apply /verif/$d/patch.diff 2>/dev/null; then echo "| $sd | patch no longer applies (the repository was repaired at that site) |" >> $out; continue; fi
   extra=""
   [ "$sd" = "C14-wave2" ] && extra="VERIF_RUNS=12000 VERIF_WALL_S=900"
   res=$(env VERIF_REPO=$wt VERIF_MIN_S=5 $extra ./vcheck $id quick 2>&1 | grep "^VIOLATION\|^OK\|infrastructure" | head -1 | cut -c1-150)
